@@ -7,6 +7,10 @@ export PYTHONDONTWRITEBYTECODE=1
 /venv/bin/python -c "import sys; sys.path.insert(0,'.'); from harness import gen_tables; gen_tables.generate()"
 cd lean
 lake build Cardutil driver 2>&1 | grep -v '^⚠\|^✔\|^ℹ\|^warning\|^Note\|^Hint\|apply\]\|^$' | tail -40
+# the source-tie modules (translated Python = model); a failure here is not fatal: the checks report it as
+# "source tie not established" and fall back on the behavioural correspondence
+lake build Cardutil.SrcTie.Card Cardutil.SrcTie.Misc Cardutil.SrcTie.Info Cardutil.SrcTie.Pds Cardutil.SrcTie.Block \
+  Cardutil.SrcTie.Unblock 2>&1 | grep '^error' | head -10 || true
 test -x .lake/build/bin/driver
 echo ping | .lake/build/bin/driver | grep -q pong
 echo "setup ok"
